@@ -171,6 +171,20 @@ func genCNF(t *rapid.T) Case {
 	return c
 }
 
+// genHardCNF: under-constrained 3-SAT / parity systems at n = 12..18: dozens to thousands of models and
+// real conflicts, so that blocking clauses, learned clauses and learned units interact.
+func genHardCNF(t *rapid.T) Case {
+	c := Case{Front: rapid.SampledFrom([]string{"slicenb", "cnf"}).Draw(t, "front")}
+	if rapid.Bool().Draw(t, "xor") {
+		c.N = gen.Uniform(t, 12, 18, "n")
+		c.Clauses = gen.XorCNF(t, c.N, gen.Uniform(t, c.N-9, c.N-3, "m"))
+	} else {
+		c.N = gen.Uniform(t, 12, 18, "n")
+		c.Clauses = gen.KSAT(t, c.N, c.N*gen.Uniform(t, 30, 42, "ratio")/10, 3)
+	}
+	return c
+}
+
 func genPB(front string) func(t *rapid.T) Case {
 	return func(t *rapid.T) Case {
 		_, ps := gen.PBConstrs(t, gen.PBOpts{MinN: 1, MaxN: 8, MaxConstrs: 4, MaxArity: 6, Card: front == "card"})
@@ -183,6 +197,9 @@ func init() {
 	vf.Register(
 		vf.Sub[Case]{Name: "cnf", Quick: 15000, Thorough: 200000, Gen: genCNF, Check: check, Floor: 0.3,
 			Rule: "CNF over n<=10 declared variables via ParseSliceNb/ParseCNF: no constraint, tautologies only, fully decided by units, sparse random formulas with odd clause shapes and unused variables" + tail},
+		vf.Sub[Case]{Name: "cnf-conflict-rich", Quick: 400, Thorough: 5000, Gen: genHardCNF, Check: check, Floor: 0.5,
+			Classes: map[string]float64{"conflicts>0": 0.5, "models>=16": 0.3},
+			Rule: "3-SAT at ratio 3.0..4.2 and parity systems with n-9..n-3 constraints, n in 12..18: many models and real conflicts during enumeration" + tail},
 		vf.Sub[Case]{Name: "card", Quick: 8000, Thorough: 100000, Gen: genPB("card"), Check: check, Floor: 0.15,
 			Rule: "cardinality constraints (n<=8, <=4 constraints) via ParseCardConstrs" + tail},
 		vf.Sub[Case]{Name: "pb", Quick: 8000, Thorough: 100000, Gen: genPB("pb"), Check: check, Floor: 0.15,
